@@ -248,13 +248,41 @@ NPARTS = 96
 
 
 def shards(tier, seed):
-    return [('p', p) for p in range(NPARTS)] + [('direct', i) for i in range(8)]
+    return [('p', p) for p in range(NPARTS)] + [('direct', i) for i in range(8)] + [('x87', 0)]
+
+
+def run_x87(sh):
+    """x87 arithmetic with st(0) as destination: the one-operand and the two-operand spelling, in both syntaxes, are one
+    instruction (the AT&T mnemonic reversal concerns only a st(i) destination, which is left out)."""
+    from miasmx.arch.ia32_arch import x86mnemo
+    for mn in ('fadd', 'fsub', 'fsubr', 'fmul', 'fdiv', 'fdivr'):
+        for i in range(8):
+            base_line = '%s st, st(%d)' % (mn, i)
+            base, err = asm_set(x86mnemo.asm, base_line)
+            if not base:
+                sh.counters['x87_base_not_assembled'] += 1
+                continue
+            for kind, f, line in (('intel-one-operand', x86mnemo.asm, '%s st(%d)' % (mn, i)), ('intel-st0', x86mnemo.asm, '%s st(0), st(%d)' % (mn, i)),
+                                  ('att-two-operand', x86mnemo.asm_att, '%s %%st(%d), %%st' % (mn, i)), ('att-one-operand', x86mnemo.asm_att, '%s %%st(%d)' % (mn, i)),
+                                  ('att-st0', x86mnemo.asm_att, '%s %%st(%d), %%st(0)' % (mn, i))):
+                got, err = asm_set(f, line)
+                sh.case(('x87', base_line, line), True, cls='x87-implicit-st/%s' % kind)
+                if got is None:
+                    # a spelling that is refused is not a second candidate set
+                    sh.counters['x87_spelling_refused:%s' % kind] += 1
+                    continue
+                if got != base:
+                    sh.violation('x87-implicit-st/%s/%s/sets-differ' % (kind, 'st0' if i == 0 else 'sti'), '%r -> %s but %r -> %s' % (base_line, sorted(c.hex() for c in base), line, sorted(c.hex() for c in got)),
+                                 {'rewrite': 'intel-att' if kind.startswith('att') else 'intel', 'line': base_line, 'variant': line})
 
 
 def run_shard(shard, tier, seed):
     sh = common.Shard()
     if shard[0] == 'direct':
         run_direct(sh, [p for k, p in enumerate(direct_pairs()) if k % 8 == shard[1]])
+        return sh
+    if shard[0] == 'x87':
+        run_x87(sh)
         return sh
     run_batch(sh, list(asmgen.lines(tier, seed, shard[1], NPARTS)))
     return sh
